@@ -6,7 +6,7 @@ import e2e_common as ec
 import c03
 
 
-def run(chk, PROP, profiles, n_tok, n_e2e, per_func, driver_ok, broken, workdir):
+def run(chk, PROP, profiles, n_tok, n_e2e, per_func, driver_ok, broken, workdir, data_mode_specs=None):
     stats = {"errors": [], "calls_compared": 0, "host_calls": 0}
     env = ec.Env(workdir)
     corpus = ec.corpus_specs(PROP)
@@ -24,7 +24,12 @@ def run(chk, PROP, profiles, n_tok, n_e2e, per_func, driver_ok, broken, workdir)
     e2e_specs = corpus + [by_id[s] for s in tok_bad if s in by_id and by_id[s] not in corpus]
     for g, (prof, share) in zip(gen, profiles):
         e2e_specs += [s for s in g[: max(1, int(n_e2e * share))] if ec.spec_id(s) not in tok_bad]
-    results = ec.run_jobs(c03.make_jobs(env, e2e_specs, per_func))
+    jobs = c03.make_jobs(env, e2e_specs, per_func)
+    if data_mode_specs:
+        # memory.init / active segments with the data blob linked in (-d gnu-ld): the bytes moved must be the segment's
+        import initmem
+        jobs += initmem.mode_jobs(env, data_mode_specs(), modes=("gnu-ld",))
+    results = ec.run_jobs(jobs)
     behav = set()
     ops = {}
     for res in results:
